@@ -286,19 +286,19 @@ def fields(ans):
     return d
 
 
-RECURSION_CLAUSES = 40
-
-
 def recursion_signature(line, impl_ans, model_ans):
-    """signature class of a RecursionError answer `ERR RecursionError clauses=<n> loop=<T|F|?>` and whether the
-    verdict layer that was reached agrees with the model / the truth table"""
-    n, loop = None, '?'
+    """signature of a RecursionError answer `ERR RecursionError origin=<pattern|file:func> clauses=<n|None> loop=<T|F|?>`
+    and whether the part of the verdict layer that had been reached agrees with the model / the truth table.
+    D17 is identified by the exception type and by where the limit is hit (inside pattern.py / a dataclass __eq__),
+    not by any size bucket: the error can occur in any stage that compares large patterns (to_cnf, to_clauses,
+    build_proof_from_hint, ...).  A RecursionError that originates elsewhere gets a different signature."""
+    origin, loop = '?', '?'
     for tok in impl_ans.split():
-        if tok.startswith('clauses=') and tok[8:].isdigit():
-            n = int(tok[8:])
+        if tok.startswith('origin='):
+            origin = tok[7:]
         if tok.startswith('loop='):
             loop = tok[5:]
-    cls = 'clauses>=%d' % RECURSION_CLAUSES if (n is not None and n >= RECURSION_CLAUSES) else 'clauses<%d' % RECURSION_CLAUSES
+    sig = 'prove_tautology/RecursionError' if origin == 'pattern' else 'prove_tautology/RecursionError/origin:' + origin
     ok = True
     if model_ans:
         d = fields(model_ans) if ' ; ' in model_ans else fields('x=0 ; ' + model_ans)
@@ -306,7 +306,7 @@ def recursion_signature(line, impl_ans, model_ans):
             ok = (loop == 'T') == (d['res'] == 'F')
         if line[0] == 'P' and 'entry' in d and d['entry'] != classify(line[2:]):
             ok = False
-    return 'prove_tautology/RecursionError/' + cls, ok
+    return sig, ok
 
 
 def build_model():
@@ -513,10 +513,14 @@ def run(tier, seed):
         mismatches.append(('build', log[-500:], ''))
         impl = run_impl(lines)
     else:
-        with ThreadPoolExecutor(max_workers=2) as ex:
-            f_impl = ex.submit(run_impl, lines)
+        ncorp = sum(1 for c in cases if c[1] == 'corpus')       # corpus lines come first
+        with ThreadPoolExecutor(max_workers=3) as ex:
+            # corpus cases (refutation witnesses, known-finding replays) get a generous timeout so that what they
+            # reproduce does not depend on machine load
+            f_corp = ex.submit(run_impl, lines[:ncorp], 180)
+            f_impl = ex.submit(run_impl, lines[ncorp:])
             f_model = ex.submit(run_model, mlref, lines)
-            impl = f_impl.result()
+            impl = f_corp.result() + f_impl.result()
             model = f_model.result()
         for (line, kind), m, i in zip(cases, model, impl):
             if (i is not None and i.startswith('TIMEOUT')) or (m is not None and m.startswith('TIMEOUT')):
